@@ -27,7 +27,15 @@ try:
             os.remove(dst)
             return rc, out
         else:
-            rc, out = sh(f"SEED_TREE={wt} ROOT={wt} CSVQ_SRC={wt} SRC={wt} TREE={wt} REPO={wt} sh {demo_sh} {wt}", cwd=wt)
+            txt = open(demo_sh).read()
+            arg = wt
+            m = re.search(r"\$\{1:-[^\n]*csvq-bin", txt)
+            if m:
+                # the script takes the CLI binary, not the tree: build it from the tree under test
+                rcb, outb = sh(f"go build -o {wt}/csvq-bin .", cwd=wt)
+                arg = f"{wt}/csvq-bin"
+            rc, out = sh(f"SEED_TREE={wt} ROOT={wt} CSVQ_SRC={wt} SRC={wt} TREE={wt} REPO={wt} CSVQ={wt}/csvq-bin sh {demo_sh} {arg}", cwd=wt)
+            sh(f"rm -f {wt}/csvq-bin")
             return rc, out
     rc0, out0 = run_demo()
     res["demo_passes_without"] = rc0 == 0
@@ -35,7 +43,7 @@ try:
     assert rc == 0, "patch does not apply: " + out
     rcb, outb = sh("go build ./...", cwd=wt)
     res["builds"] = rcb == 0
-    rct, outt = sh("go test -vet=off -count=1 ./...", cwd=wt)
+    rct, outt = sh("TMPDIR=$(mktemp -d) go test -vet=off -count=1 ./...", cwd=wt)
     res["suite_passes_with"] = rct == 0
     if rct != 0:
         res["suite_output"] = outt[-1500:]
